@@ -628,6 +628,72 @@ func deadlineRules(c *Ctx, prefix string) {
 		}
 	}
 
+	// ---- R8: how and when the runtime timer is driven --------------------------------
+	o8 := c.Obl(prefix+"8", r.T+".timer", "the runtime timer is stopped, re-armed and created only while the Deadline's mutex is held exclusively (two Sets cannot reach it in the opposite order of their state updates), and it is armed with exactly time.Until(t) of Set's argument: every helper on the way hands the duration on unchanged", 3)
+	for _, in := range findU(r.Set, func(in ssa.Instruction) bool { return r.isArm(in) || r.isStop(in) }) {
+		o8.Site(in.Pos(), "%s held=%s", callName(in.(ssa.CallInstruction)), la.heldAt(in))
+		if !la.holdsOwner(in, r.T, true) {
+			o8.Fail(in.Pos(), "the timer is driven outside the Deadline's mutex: a concurrent Set can re-arm it in the other order than the state was updated (the timer then runs for a superseded deadline)")
+		}
+	}
+	isDur := func(t types.Type) bool { return t.String() == "time.Duration" }
+	for _, f := range p.Funcs {
+		if pkgOf(f) != "deadline" {
+			continue
+		}
+		instrsOf(f, func(in ssa.Instruction) {
+			cl, ok := in.(*ssa.Call)
+			if !ok {
+				return
+			}
+			var dur ssa.Value
+			switch {
+			case callName(cl) == "time.AfterFunc" || callName(cl) == "time.NewTimer" || callName(cl) == "time.After":
+				dur = cl.Call.Args[0]
+			case callName(cl) == "(*time.Timer).Reset":
+				dur = cl.Call.Args[1]
+			case cl.Call.IsInvoke() && cl.Call.Method.Name() == "Reset" && len(cl.Call.Args) == 1 && isDur(cl.Call.Args[0].Type()):
+				dur = cl.Call.Args[0]
+			default:
+				if sc := cl.Call.StaticCallee(); sc != nil && inModule(sc) && pkgOf(sc) == "deadline" {
+					// a module function taking a duration (afterFunc, the js timer's Reset)
+					for k, prm := range sc.Params {
+						if isDur(prm.Type()) && k < len(cl.Call.Args) {
+							dur = cl.Call.Args[k]
+						}
+					}
+				}
+			}
+			if dur == nil {
+				return
+			}
+			o8.Site(in.Pos(), "%s armed with %s in %s", callName(cl), dur.Name(), fname(f))
+			dv := origin(dur)
+			if prm, isP := dv.(*ssa.Parameter); isP && isDur(prm.Type()) {
+				return // handed on unchanged
+			}
+			if isIn(f, r.Set) || f == r.Set {
+				// time.Until(t), possibly computed ahead and joined with the 0 of the "no deadline" case
+				okAll, nUntil := true, 0
+				for _, lf := range phiLeaves(dv) {
+					lf = origin(lf)
+					if u, ok := lf.(*ssa.Call); ok && callName(u) == "time.Until" && len(r.Set.Params) > 1 && sameOrigin(u.Call.Args[0], ssa.Value(r.Set.Params[1])) {
+						nUntil++
+						continue
+					}
+					if k, isC := constInt(lf); isC && k == 0 {
+						continue
+					}
+					okAll = false
+				}
+				if okAll && nUntil > 0 {
+					return
+				}
+			}
+			o8.Fail(in.Pos(), "the timer is armed with %s, which is not the time remaining until the deadline handed to Set (rounded, shifted or taken from something else): the deadline fires early or late", dv.String())
+		})
+	}
+
 	// ---- R6: lock balance ----------------------------------------------------------
 	for _, f := range []*ssa.Function{r.Set, r.Timeout, r.Done, r.Err, r.DeadlineFn} {
 		ob := c.Obl(prefix+"6", fname(f), "lock balance on every path", 1)
